@@ -25,6 +25,7 @@ import (
 	"sort"
 	"strconv"
 	"strings"
+	"sync/atomic"
 	"time"
 
 	"github.com/opencontainers/go-digest"
@@ -44,14 +45,42 @@ var hangs int
 // ---------- operations ----------
 
 type op struct {
-	K       byte // P T U D G A S
-	N, T    int  // node, tag / stray kind bits
+	K       byte // P T U D G A S R F V I C
+	N, T    int  // node, tag / stray kind bits / C: number of ctx.Done() calls before the context is done
 	A, B, C int
+	// Model is the token the model gets for a C op: what the cancelled GC was observed to do
+	// ("G" it completed, "Ke" cancelled before the index was rebuilt, "K<k>:<order>" cancelled in
+	// the sweep after k entries of the directory order); set when the op has run
+	Model string
 }
+
+// ModelString is the op as the model reads it.
+func (o op) ModelString() string {
+	switch o.K {
+	case 'C':
+		if o.Model == "" {
+			return "Ke"
+		}
+		return o.Model
+	case 'G':
+		if o.Model != "" {
+			return o.Model // "Q<k>:<order>": the sweep met an entry it cannot remove
+		}
+	case 'X':
+		return fmt.Sprintf("S%d.0.1", blockerID(o.N)) // for the model: a stray with a valid digest name
+	}
+	return o.String()
+}
+
+// blockerID: the stray id of the j-th "blocker", a non-empty DIRECTORY with a valid digest name
+// under blobs/sha256 (os.Remove fails on it: an I/O error in the middle of the sweep)
+func blockerID(j int) int { return 600 + 6*j }
+
+func isBlocker(id int) bool { return id >= 600 }
 
 func (o op) String() string {
 	switch o.K {
-	case 'P', 'D':
+	case 'P', 'D', 'Y':
 		return fmt.Sprintf("%c%d", o.K, o.N)
 	case 'T':
 		return fmt.Sprintf("T%d.%d", o.N, o.T)
@@ -63,6 +92,16 @@ func (o op) String() string {
 		return "R"
 	case 'F':
 		return "F"
+	case 'I':
+		return "I"
+	case 'B':
+		return fmt.Sprintf("B%d", o.N)
+	case 'X':
+		return fmt.Sprintf("X%d", o.N)
+	case 'V':
+		return fmt.Sprintf("V%d", o.N)
+	case 'C':
+		return fmt.Sprintf("C%d", o.N)
 	case 'A':
 		return fmt.Sprintf("A%d", o.N)
 	case 'S':
@@ -98,7 +137,7 @@ func parseOps(s string) []op {
 			return r
 		}
 		switch f[0] {
-		case 'P', 'D':
+		case 'P', 'D', 'Y':
 			out = append(out, op{K: f[0], N: ints()[0]})
 		case 'T':
 			out = append(out, op{K: 'T', N: ints()[0], T: ints()[1]})
@@ -110,6 +149,10 @@ func parseOps(s string) []op {
 			out = append(out, op{K: 'R'})
 		case 'F':
 			out = append(out, op{K: 'F'})
+		case 'I':
+			out = append(out, op{K: 'I'})
+		case 'V', 'C', 'B', 'X':
+			out = append(out, op{K: f[0], N: ints()[0]})
 		case 'A', 'S':
 			out = append(out, op{K: f[0], N: ints()[0]})
 		default:
@@ -184,10 +227,15 @@ type truth struct {
 	digidx map[int]bool // nodes whose digest is a reference of the store
 	strays map[int]bool
 	autogc bool
+	// index.json as the reference expects it: entries with a tag, digest-only entries
+	autosave bool
+	diskTags map[int]int
+	diskDigs map[int]bool
 }
 
 func newTruth(g *dag.Graph) *truth {
-	return &truth{g: g, known: map[int]bool{}, stored: map[int]bool{}, tags: map[int]int{}, digidx: map[int]bool{}, strays: map[int]bool{}, autogc: true}
+	return &truth{g: g, known: map[int]bool{}, stored: map[int]bool{}, tags: map[int]int{}, digidx: map[int]bool{}, strays: map[int]bool{}, autogc: true,
+		autosave: true, diskTags: map[int]int{}, diskDigs: map[int]bool{}}
 }
 
 func (t *truth) tagged(n int) bool {
@@ -320,6 +368,7 @@ type obs struct {
 	digs   []int
 	preds  map[int][]int
 	strays []int
+	disk   string // index.json: t<tag>><node> per tagged entry, d<node> per digest-only entry
 	bad    string // anything that could not be interpreted
 }
 
@@ -344,7 +393,7 @@ func (o *obs) String() string {
 			p = append(p, fmt.Sprintf("%d<%s", k, joinInts(o.preds[k])))
 		}
 	}
-	s := fmt.Sprintf("B:%s/I:%s/P:%s/S:%s", joinInts(o.blobs), strings.Join(i, ","), strings.Join(p, ";"), joinInts(o.strays))
+	s := fmt.Sprintf("B:%s/I:%s/P:%s/S:%s/J:%s", joinInts(o.blobs), strings.Join(i, ","), strings.Join(p, ";"), joinInts(o.strays), o.disk)
 	if o.bad != "" {
 		s += "/BAD:" + strings.ReplaceAll(o.bad, " ", "_")
 	}
@@ -367,8 +416,143 @@ type world struct {
 	strayID map[string]int
 }
 
+// readDisk renders index.json: t<tag>><node> for entries with a reference name, d<node> for
+// digest-only entries (sorted).
+func (w *world) readDisk() (string, string) {
+	data, err := os.ReadFile(filepath.Join(w.root, "index.json"))
+	if err != nil {
+		return "", "index.json: " + err.Error()
+	}
+	var ix ocispec.Index
+	if err := json.Unmarshal(data, &ix); err != nil {
+		return "", "index.json: " + err.Error()
+	}
+	var tags, digs []string
+	bad := ""
+	for _, d := range ix.Manifests {
+		id, ok := w.byDig[d.Digest]
+		if !ok || d.MediaType != w.g.Nodes[id].Desc.MediaType || d.Size != w.g.Nodes[id].Desc.Size {
+			bad += "index.json entry of unknown/inconsistent descriptor;"
+			continue
+		}
+		if ref := d.Annotations[ocispec.AnnotationRefName]; ref != "" {
+			var t int
+			if _, err := fmt.Sscanf(ref, "tag%d", &t); err != nil {
+				bad += "index.json entry with unknown reference " + ref + ";"
+				continue
+			}
+			tags = append(tags, fmt.Sprintf("t%d>%d", t, id))
+		} else {
+			digs = append(digs, fmt.Sprintf("%06d", id))
+		}
+	}
+	sort.Strings(tags)
+	sort.Strings(digs)
+	for i, d := range digs {
+		n, _ := strconv.Atoi(d)
+		digs[i] = fmt.Sprintf("d%d", n)
+	}
+	return strings.Join(append(tags, digs...), ","), bad
+}
+
+// sweepOrder lists blobs/<known alg>/ as the GC sweep walks it: b<node> for content of the
+// universe, s<id> for stray files (entries the sweep tests the context for).
+func (w *world) sweepOrder(everStray map[int]bool) []string {
+	var out []string
+	blobsDir := filepath.Join(w.root, "blobs")
+	strayAt := map[string]int{}
+	for id := range everStray {
+		strayAt[strayPath(id)] = id
+	}
+	for _, alg := range []digest.Algorithm{digest.SHA256, digest.SHA384, digest.SHA512} { // = directory order
+		ents, _ := os.ReadDir(filepath.Join(blobsDir, alg.String()))
+		for _, e := range ents {
+			if id, ok := w.byDig[digest.NewDigestFromEncoded(alg, e.Name())]; ok {
+				out = append(out, fmt.Sprintf("b%d", id))
+			} else if id, ok := strayAt[filepath.Join(alg.String(), e.Name())]; ok {
+				out = append(out, fmt.Sprintf("s%d", id))
+			}
+		}
+	}
+	return out
+}
+
+// countCtx is a context that is done from its n-th Done() call on (nil channel before: the
+// standard library does not even register children then).
+type countCtx struct {
+	context.Context
+	left  int64
+	fired int32
+}
+
+var closedChan = func() chan struct{} { c := make(chan struct{}); close(c); return c }()
+
+func (c *countCtx) Done() <-chan struct{} {
+	if atomic.AddInt64(&c.left, -1) < 0 {
+		atomic.StoreInt32(&c.fired, 1)
+		return closedChan
+	}
+	return nil
+}
+
+func (c *countCtx) Err() error {
+	if atomic.LoadInt32(&c.fired) == 1 {
+		return context.Canceled
+	}
+	return nil
+}
+
+// gcCancelled runs GC with a context that is done from the n-th Done() call on and reports what
+// the model needs: the token and the error.
+func (w *world) gcCancelled(n int, everStray map[int]bool) (token string, err error, hung bool) {
+	order := w.sweepOrder(everStray)
+	before := map[string]bool{}
+	for _, e := range order {
+		before[e] = true
+	}
+	var gctx context.Context = context.Background()
+	if n >= 0 {
+		gctx = &countCtx{Context: context.Background(), left: int64(n)}
+	}
+	err, hung = w.guarded(func(context.Context) error { return w.store.GC(gctx) })
+	if hung {
+		return "", nil, true
+	}
+	if err == nil {
+		return "G", nil, false
+	}
+	if !errors.Is(err, context.Canceled) {
+		// an entry the sweep cannot remove (a non-empty directory with a digest name): the sweep
+		// stopped there, the entries before it were handled
+		for i, e := range order {
+			var id int
+			if _, serr := fmt.Sscanf(e, "s%d", &id); serr == nil && isBlocker(id) {
+				return fmt.Sprintf("Q%d:%s", i, strings.Join(order, ",")), err, false
+			}
+		}
+		return "G", err, false
+	}
+	if strings.Contains(err.Error(), "unable to reload index") {
+		return "Ke", err, false
+	}
+	after := map[string]bool{}
+	for _, e := range w.sweepOrder(everStray) {
+		after[e] = true
+	}
+	k := 0
+	for i, e := range order {
+		if !after[e] {
+			k = i + 1
+		}
+	}
+	return fmt.Sprintf("K%d:%s", k, strings.Join(order, ",")), err, false
+}
+
 func (w *world) observe(ctx context.Context, strayIDs map[int]bool) *obs {
 	o := &obs{tags: map[int]int{}, preds: map[int][]int{}}
+	var dbad string
+	o.disk, dbad = w.readDisk()
+	o.bad += dbad
 	blobsDir := filepath.Join(w.root, "blobs")
 	for id := range strayIDs {
 		if _, err := os.Stat(filepath.Join(blobsDir, strayPath(id))); err == nil {
@@ -437,6 +621,8 @@ func errName(err error) string {
 		return "notfound"
 	case errors.Is(err, errdef.ErrAlreadyExists):
 		return "exists"
+	case errors.Is(err, context.Canceled):
+		return "canceled"
 	default:
 		return "other"
 	}
@@ -448,7 +634,7 @@ func (w *world) guarded(f func(ctx context.Context) error) (err error, hung bool
 	defer cancel()
 	done := make(chan error, 1)
 	go func() { done <- f(ctx) }()
-	limit := 60 * time.Second
+	limit := 30 * time.Second
 	select {
 	case err = <-done:
 		return err, false
@@ -533,7 +719,11 @@ func modelInput(g *dag.Graph, ops []op, seed uint64) string {
 		fmt.Fprintf(&sb, " %s,%s,%s", k, sub, sc)
 	}
 	sb.WriteString(" : ")
-	sb.WriteString(opsString(ops))
+	var ms []string
+	for _, o := range ops {
+		ms = append(ms, o.ModelString())
+	}
+	sb.WriteString(strings.Join(ms, " "))
 	return sb.String()
 }
 
@@ -617,6 +807,72 @@ func runCaseAttempt(g *dag.Graph, ops []op, seed uint64, attempt int) {
 		expRes := "ok"
 		kind := ""
 		var cascade map[int]bool
+		doSave := false // the store is expected to write index.json in this operation
+		expDiskTags := map[int]int{}
+		for k, v := range tr.diskTags {
+			expDiskTags[k] = v
+		}
+		expDiskDigs := map[int]bool{}
+		for k := range tr.diskDigs {
+			expDiskDigs[k] = true
+		}
+		// what the reference expects of a (completed, or cancelled after the entries [handled] of
+		// the sweep) GC
+		expectGC := func(handled map[string]bool) {
+			live, kept := tr.live()
+			for k := range expStored {
+				if !live[k] && (handled == nil || handled[fmt.Sprintf("b%d", k)]) {
+					delete(expStored, k)
+					nontrivial = true
+				}
+			}
+			expKnown = map[int]bool{}
+			for k := range live {
+				expKnown[k] = true
+			}
+			// graph.Exists of the rebuilt graph also holds for a layer/config that a live manifest
+			// lists although its content is not stored (IndexAll records leaves by reference)
+			listedAbsentLeaf := func(k int) bool {
+				if tr.stored[k] || g.Nodes[k].IsManifest() {
+					return false
+				}
+				for _, p := range g.Preds(k) {
+					if live[p] {
+						return true
+					}
+				}
+				return false
+			}
+			for k := range expDig {
+				if !tr.tagged(k) && !kept[k] && !(keepLiveDigests && (live[k] || listedAbsentLeaf(k))) {
+					delete(expDig, k)
+				}
+			}
+			for k := range expStrays {
+				if kn, v := strayKind(k); kn && v && (handled == nil || handled[fmt.Sprintf("s%d", k)]) {
+					delete(expStrays, k)
+				}
+			}
+			doSave = tr.autosave
+		}
+		// a new Store on the directory: references and graph come from index.json
+		expectReload := func() {
+			expTags = map[int]int{}
+			expDig = map[int]bool{}
+			expKnown = map[int]bool{}
+			for t, n := range expDiskTags {
+				expTags[t] = n
+				expDig[n] = true
+			}
+			for n := range expDiskDigs {
+				expDig[n] = true
+			}
+			for n := range expDig {
+				tr.closure(n, expKnown)
+			}
+			tr.autogc = true
+			tr.autosave = true
+		}
 		switch o.K {
 		case 'P':
 			n := g.Nodes[o.N]
@@ -628,6 +884,7 @@ func runCaseAttempt(g *dag.Graph, ops []op, seed uint64, attempt int) {
 				expKnown[o.N] = true
 				if n.IsManifest() {
 					expDig[o.N] = true
+					doSave = tr.autosave
 				}
 			}
 			kind = "push"
@@ -639,6 +896,7 @@ func runCaseAttempt(g *dag.Graph, ops []op, seed uint64, attempt int) {
 				if g.Nodes[o.N].IsManifest() {
 					expKnown[o.N] = true // Store.Tag indexes a manifest before naming it in index.json
 				}
+				doSave = tr.autosave
 			} else {
 				expRes = "notfound"
 			}
@@ -647,6 +905,7 @@ func runCaseAttempt(g *dag.Graph, ops []op, seed uint64, attempt int) {
 			err = store.Untag(ctx, fmt.Sprintf("tag%d", o.T))
 			if _, ok := tr.tags[o.T]; ok {
 				delete(expTags, o.T)
+				doSave = tr.autosave
 			} else {
 				expRes = "notfound"
 			}
@@ -664,9 +923,40 @@ func runCaseAttempt(g *dag.Graph, ops []op, seed uint64, attempt int) {
 			expStrays[o.N] = true
 			everStray[o.N] = true
 			kind = "stray"
+		case 'B':
+			// malformed stream: a blob with a manifest media type that does not decode: Push stores
+			// it, cannot index it and must take it away again
+			bd, bb := badManifest(o.N)
+			err = store.Push(ctx, bd, bytes.NewReader(bb))
+			expRes = "other"
+			kind = "push-undecodable"
+			if _, serr := os.Stat(filepath.Join(root, "blobs", "sha256", bd.Digest.Encoded())); serr == nil {
+				fail("push-left-garbage", fmt.Sprintf("op %d (%s): the failed Push left its blob in the storage", oi, o))
+				failed = true
+			}
+		case 'X':
+			bid := blockerID(o.N)
+			p := filepath.Join(root, "blobs", strayPath(bid))
+			if werr := os.MkdirAll(p, 0o755); werr != nil {
+				panic(werr)
+			}
+			if werr := os.WriteFile(filepath.Join(p, "inside"), []byte("x"), 0o644); werr != nil {
+				panic(werr)
+			}
+			expStrays[bid] = true
+			everStray[bid] = true
+			kind = "stray-directory"
+		case 'V':
+			store.AutoSaveIndex = o.N == 1
+			tr.autosave = o.N == 1
+			kind = "autosave"
+		case 'I':
+			err = store.SaveIndex()
+			doSave = true
+			kind = "saveindex"
 		case 'R':
-			// reopen: a new Store on the same directory; everything observable must be as before
-			// (generated right after GC only); AutoGC is the default again
+			// reopen: a new Store on the same directory: what it knows is what index.json holds
+			// (unsaved changes of the reference map are lost); AutoGC/AutoSaveIndex are the defaults
 			ns, nerr := oci.New(root)
 			if nerr != nil {
 				err = nerr
@@ -674,16 +964,8 @@ func runCaseAttempt(g *dag.Graph, ops []op, seed uint64, attempt int) {
 				store = ns
 				w.store = ns
 			}
-			tr.autogc = true
 			kind = "reopen"
-			// the reopened store knows what index.json reaches through stored content
-			expKnown = map[int]bool{}
-			for _, n := range tr.tags {
-				tr.closure(n, expKnown)
-			}
-			for n := range tr.digidx {
-				tr.closure(n, expKnown)
-			}
+			expectReload()
 		case 'F':
 			// the layout as other tools write it: index.json names only the tagged descriptors;
 			// then a new Store on the directory
@@ -697,19 +979,83 @@ func runCaseAttempt(g *dag.Graph, ops []op, seed uint64, attempt int) {
 				store = ns
 				w.store = ns
 			}
-			tr.autogc = true
 			kind = "foreign-index"
-			expDig = map[int]bool{}
-			expKnown = map[int]bool{}
-			for _, n := range tr.tags {
-				expDig[n] = true
-				tr.closure(n, expKnown)
+			expDiskDigs = map[int]bool{}
+			expectReload()
+		case 'C':
+			var token string
+			token, err, hung = w.gcCancelled(o.N, everStray)
+			ops[oi].Model, o.Model = token, token
+			kind = "gc-cancelled"
+			switch {
+			case hung:
+			case token == "G":
+				expectGC(nil)
+				run.Count("gc-cancel:completed")
+			case token == "Ke":
+				expRes = "canceled" // nothing may have changed
+				run.Count("gc-cancel:before-rebuild")
+			case strings.HasPrefix(token, "Q"):
+				expRes = "other"
+				handled := map[string]bool{}
+				var k int
+				var rest string
+				fmt.Sscanf(token, "Q%d:%s", &k, &rest)
+				for i, e := range strings.Split(rest, ",") {
+					if i < k {
+						handled[e] = true
+					}
+				}
+				expectGC(handled)
+				run.Count("gc-cancel:blocked")
+			default:
+				expRes = "canceled"
+				handled := map[string]bool{}
+				var k int
+				var rest string
+				fmt.Sscanf(token, "K%d:%s", &k, &rest)
+				for i, e := range strings.Split(rest, ",") {
+					if i < k {
+						handled[e] = true
+					}
+				}
+				expectGC(handled)
+				run.Count("gc-cancel:in-sweep")
+			}
+		case 'Y':
+			// Delete of a layer/config with the descriptor Resolve(<digest>) gives for a blob
+			// (application/octet-stream): clause 1 of the property - the content and the references
+			// to it go; the graph does not know this descriptor, nothing cascades
+			alt := g.Nodes[o.N].Desc
+			alt.MediaType = "application/octet-stream"
+			err, hung = w.guarded(func(c context.Context) error { return store.Delete(c, alt) })
+			kind = "delete-by-blob-descriptor"
+			if !tr.stored[o.N] {
+				expRes = "notfound"
+			}
+			delete(expStored, o.N)
+			delete(expDig, o.N)
+			for t, n := range tr.tags {
+				if n == o.N {
+					delete(expTags, t)
+				}
+			}
+			if tr.autosave {
+				doSave = len(expTags) != len(tr.tags) || len(expDig) != len(tr.digidx)
 			}
 		case 'D':
 			err, hung = w.guarded(func(c context.Context) error { return store.Delete(c, g.Nodes[o.N].Desc) })
 			kind = "delete"
 			if !tr.stored[o.N] {
+				// delete() drops the references to the target before the storage reports not found
+				// (only after an unsaved index was reloaded can a reference name a blob that is gone)
 				expRes = "notfound"
+				for t, n := range tr.tags {
+					if n == o.N {
+						delete(expTags, t)
+					}
+				}
+				delete(expDig, o.N)
 			} else {
 				gone := map[int]bool{o.N: true}
 				if tr.autogc {
@@ -753,27 +1099,49 @@ func runCaseAttempt(g *dag.Graph, ops []op, seed uint64, attempt int) {
 				}
 			}
 		case 'G':
-			err, hung = w.guarded(func(c context.Context) error { return store.GC(c) })
+			var token string
+			token, err, hung = w.gcCancelled(-1, everStray)
 			kind = "gc"
-			live, kept := tr.live()
-			for k := range expStored {
-				if !live[k] {
-					delete(expStored, k)
-					nontrivial = true
+			if strings.HasPrefix(token, "Q") {
+				// I/O error in the sweep: judged like a sweep that stopped there
+				ops[oi].Model, o.Model = token, token
+				expRes = "other"
+				handled := map[string]bool{}
+				var k int
+				var rest string
+				fmt.Sscanf(token, "Q%d:%s", &k, &rest)
+				for i, e := range strings.Split(rest, ",") {
+					if i < k {
+						handled[e] = true
+					}
 				}
+				expectGC(handled)
+				kind = "gc-blocked"
+			} else {
+				expectGC(nil)
 			}
-			expKnown = map[int]bool{}
-			for k := range expStored {
-				expKnown[k] = true
-			}
+		}
+		if o.K == 'D' && tr.autosave {
+			// delete() saves when it removed or added a reference
+			changed := len(expTags) != len(tr.tags) || len(expDig) != len(tr.digidx)
 			for k := range expDig {
-				if !tr.tagged(k) && !kept[k] && !(keepLiveDigests && live[k]) {
-					delete(expDig, k)
+				if !tr.digidx[k] {
+					changed = true
 				}
 			}
-			for k := range expStrays {
-				if kn, v := strayKind(k); kn && v {
-					delete(expStrays, k)
+			doSave = changed
+		}
+		if doSave {
+			expDiskTags = map[int]int{}
+			expDiskDigs = map[int]bool{}
+			named := map[int]bool{}
+			for t, n := range expTags {
+				expDiskTags[t] = n
+				named[n] = true
+			}
+			for n := range expDig {
+				if !named[n] {
+					expDiskDigs[n] = true
 				}
 			}
 		}
@@ -795,14 +1163,14 @@ func runCaseAttempt(g *dag.Graph, ops []op, seed uint64, attempt int) {
 				return
 			}
 			hangs++
-			out = append(out, o.String()+"=hang")
+			out = append(out, o.ModelString()+"=hang")
 			fail(kind+"-hang", fmt.Sprintf("op %d (%s) did not return within the watchdog (reproduced on a fresh store)", oi, o))
 			failed = true
 			break
 		}
 		res := errName(err)
 		ob := w.observe(ctx, everStray)
-		out = append(out, o.String()+"="+res+"/"+ob.String())
+		out = append(out, o.ModelString()+"="+res+"/"+ob.String())
 		if failed {
 			// the reference is no longer aligned with the store: keep recording the
 			// implementation's observable for the comparison with the model, judge nothing
@@ -864,6 +1232,26 @@ func runCaseAttempt(g *dag.Graph, ops []op, seed uint64, attempt int) {
 			fail(kind+"-digest-index", fmt.Sprintf("op %d (%s): digest references %v, expected %v", oi, o, ob.digs, wantDigs))
 			failed = true
 		}
+		// index.json: exactly what saveIndex writes for the references at the last save
+		{
+			var tg, dg []string
+			for t, n := range expDiskTags {
+				tg = append(tg, fmt.Sprintf("t%d>%d", t, n))
+			}
+			var ids []int
+			for n := range expDiskDigs {
+				ids = append(ids, n)
+			}
+			sort.Strings(tg)
+			sort.Ints(ids)
+			for _, n := range ids {
+				dg = append(dg, fmt.Sprintf("d%d", n))
+			}
+			if want := strings.Join(append(tg, dg...), ","); want != ob.disk {
+				fail(kind+"-index-json", fmt.Sprintf("op %d (%s): index.json holds %q, expected %q", oi, o, ob.disk, want))
+				failed = true
+			}
+		}
 		// predecessor relation: exactly the nodes of the store's graph that list n
 		if !failed {
 			tr.stored, tr.known = expStored, expKnown
@@ -897,6 +1285,7 @@ func runCaseAttempt(g *dag.Graph, ops []op, seed uint64, attempt int) {
 			continue
 		}
 		tr.stored, tr.known, tr.tags, tr.digidx, tr.strays = expStored, expKnown, expTags, expDig, expStrays
+		tr.diskTags, tr.diskDigs = expDiskTags, expDiskDigs
 	}
 	in := modelInput(g, ops, seed)
 	run.Case(id, in, strings.Join(out, " "))
@@ -954,6 +1343,12 @@ func stripIndex(root string) error {
 		return err
 	}
 	return os.WriteFile(p, out, 0o644)
+}
+
+// badManifest: bytes that do not decode under an image-manifest media type
+func badManifest(id int) (ocispec.Descriptor, []byte) {
+	b := []byte(fmt.Sprintf("{\"schemaVersion\": 2, \"undecodable\": %d, ", id))
+	return ocispec.Descriptor{MediaType: ocispec.MediaTypeImageManifest, Digest: digest.FromBytes(b), Size: int64(len(b))}, b
 }
 
 var repeats = 1
@@ -1042,6 +1437,17 @@ func execOnly(g *dag.Graph, ops []op) (string, bool) {
 			os.MkdirAll(filepath.Dir(p), 0o755)
 			os.WriteFile(p, []byte(fmt.Sprintf("stray %d", o.N)), 0o644)
 			strays[o.N] = true
+		case 'B':
+			bd, bb := badManifest(o.N)
+			err = store.Push(ctx, bd, bytes.NewReader(bb))
+		case 'V':
+			store.AutoSaveIndex = o.N == 1
+		case 'I':
+			err = store.SaveIndex()
+		case 'C':
+			var token string
+			token, err, hung = w.gcCancelled(o.N, strays)
+			o.Model = token
 		case 'R', 'F':
 			if o.K == 'F' {
 				if ferr := stripIndex(root); ferr != nil {
@@ -1055,15 +1461,29 @@ func execOnly(g *dag.Graph, ops []op) (string, bool) {
 				store = ns
 				w.store = ns
 			}
+		case 'Y':
+			alt := g.Nodes[o.N].Desc
+			alt.MediaType = "application/octet-stream"
+			err, hung = w.guarded(func(c context.Context) error { return store.Delete(c, alt) })
 		case 'D':
 			err, hung = w.guarded(func(c context.Context) error { return store.Delete(c, g.Nodes[o.N].Desc) })
 		case 'G':
-			err, hung = w.guarded(func(c context.Context) error { return store.GC(c) })
+			var token string
+			token, err, hung = w.gcCancelled(-1, strays)
+			if strings.HasPrefix(token, "Q") {
+				o.Model = token
+			}
+		case 'X':
+			bid := blockerID(o.N)
+			p := filepath.Join(root, "blobs", strayPath(bid))
+			os.MkdirAll(p, 0o755)
+			os.WriteFile(filepath.Join(p, "inside"), []byte("x"), 0o644)
+			strays[bid] = true
 		}
 		if hung {
 			return "", true
 		}
-		out = append(out, o.String()+"="+errName(err)+"/"+w.observe(ctx, strays).String())
+		out = append(out, o.ModelString()+"="+errName(err)+"/"+w.observe(ctx, strays).String())
 	}
 	return strings.Join(out, " "), false
 }
@@ -1138,6 +1558,14 @@ func genCase(r *common.Rand) (*dag.Graph, []op) {
 	}
 	// nodes of media type application/octet-stream are never tagged: Resolve(digest) could
 	// not tell the reference from the blob fallback
+	// layers/configs whose own media type is not application/octet-stream: Delete with the
+	// descriptor Resolve(<digest>) returns for them is a different descriptor
+	var altable []int
+	for _, n := range pushable {
+		if !g.Nodes[n].IsManifest() && g.Nodes[n].Desc.MediaType != "application/octet-stream" {
+			altable = append(altable, n)
+		}
+	}
 	var named []int
 	for _, n := range pushable {
 		if g.Nodes[n].Desc.MediaType != "application/octet-stream" {
@@ -1175,6 +1603,12 @@ func genCase(r *common.Rand) (*dag.Graph, []op) {
 			}
 			ops = append(ops, op{K: 'D', N: n})
 		case x < 50:
+			if r.Chance(1, 4) {
+				// GC with a context that is done after a number of Done() calls: before the index
+				// is rebuilt, somewhere in the sweep, or never
+				ops = append(ops, op{K: 'C', N: r.Intn(14)})
+				continue
+			}
 			ops = append(ops, op{K: 'G'})
 			if keepLiveDigests && r.Chance(1, 3) {
 				// GC saves index.json on this tree: reopen and carry on
@@ -1193,6 +1627,20 @@ func genCase(r *common.Rand) (*dag.Graph, []op) {
 			ops = append(ops, op{K: 'S', N: r.Intn(12)})
 		default:
 			ops = append(ops, op{K: 'A', N: r.Intn(2)})
+		}
+		if r.Chance(1, 25) {
+			ops = append(ops, op{K: 'B', N: r.Intn(4)})
+		}
+		if len(altable) > 0 && r.Chance(1, 20) {
+			ops = append(ops, op{K: 'Y', N: common.Pick(r, altable)})
+		}
+		if r.Chance(1, 40) {
+			// a non-empty directory with a digest name: every later GC fails there
+			ops = append(ops, op{K: 'X', N: r.Intn(3)})
+		}
+		if r.Chance(1, 14) {
+			// AutoSaveIndex off / on / an explicit SaveIndex
+			ops = append(ops, common.Pick(r, []op{{K: 'V', N: 0}, {K: 'V', N: 0}, {K: 'V', N: 1}, {K: 'I'}}))
 		}
 		if keepLiveDigests && r.Chance(1, 12) {
 			// reopen at an arbitrary point (index.json is kept current by AutoSaveIndex)
@@ -1514,6 +1962,20 @@ func exhaustive() {
 			g := buildSmall(shapes)
 			n := len(g.Nodes)
 			run.Count(fmt.Sprintf("exhaustive:graphs-%d", n))
+			if manifests <= 2 {
+				// GC cancelled at EVERY point: the context is done from its T-th Done() call on, for
+				// every T up to the number of calls a complete GC makes (before the rebuild, before
+				// each directory entry, never), then a GC that must finish the job
+				for mask := 0; mask < 1<<manifests; mask++ {
+					for t := 0; t <= manifests+n+3; t++ {
+						ops := smallHistory(n, mask, 0, 0)
+						ops = ops[:len(ops)-1] // without the Delete
+						ops = append(ops, op{K: 'S', N: 0}, op{K: 'S', N: 1}, op{K: 'C', N: t}, op{K: 'G'})
+						runCase(g, ops, 0)
+						run.Count("exhaustive:cancel-points")
+					}
+				}
+			}
 			if manifests <= 3 {
 				for mask := 0; mask < 1<<manifests; mask++ {
 					for target := 0; target < n; target++ {
@@ -1538,11 +2000,14 @@ func coverageFloors(n int) {
 	if n < 500 || hangs > 0 || run.OracleFails > 0 {
 		return
 	}
-	need := map[string]int{"op:delete": n / 4, "op:gc": n / 4, "op:tag": n / 2, "op:push": 2 * n, "op:stray": n / 20, "repetitions": n / 2}
+	need := map[string]int{"op:delete": n / 4, "op:gc": n / 4, "op:tag": n / 2, "op:push": 2 * n, "op:stray": n / 20, "repetitions": n / 2,
+		"gc-cancel:in-sweep": n / 50, "gc-cancel:before-rebuild": n / 100, "gc-cancel:completed": n / 100,
+		"op:autosave": n / 20, "op:saveindex": n / 50, "op:push-undecodable": n / 20, "op:gc-blocked": n / 50, "op:delete-by-blob-descriptor": n / 20}
 	if keepLiveDigests {
 		need["op:reopen"] = n / 20
 	}
 	if run.Thorough() {
+		need["exhaustive:cancel-points"] = 50
 		need["exhaustive:histories"] = 10000
 	}
 	var missing []string
@@ -1599,7 +2064,7 @@ func main() {
 	if run.Thorough() {
 		exhaustive()
 	}
-	n := run.Scale(1600, 16000)
+	n := run.Scale(1000, 8000)
 	if os.Getenv("C09_ONLY_EXHAUSTIVE") != "" { // manual testing aid
 		n = 0
 	}
